@@ -20,6 +20,13 @@
                                       is taken for an existing link; the next run tries to unlink/rmdir it
                                       and fails with OSError, possibly after having removed other entries,
                                       or leaves an emptied directory behind
+     DEVIATION D4 (FixedD4 = FALSE)  the leaf/node check (a link path that is also a directory on another job's
+                                      path) only looks at paths inserted EARLIER into the link table; with the
+                                      deviation fixed the check is independent of the order
+     DEVIATION D5 (FixedD5 = FALSE)  a link of the previous view that lies ON THE PATH of a new link (old a/1/job, new
+                                      a/1/job/5/job) is coloured as a node and therefore kept; the new link's directories and
+                                      the link itself are then created THROUGH it, inside the other job's directory (the
+                                      next run fails with FileExistsError; a dangling link on the way gives FileNotFoundError)
    REQUIREMENT = Want(ws, view, args): if the selection is representable (every selected job has a path, the
    paths are distinct, no link path leads through another link, no separator in keys/values) then exactly one
    link per selected job at PathOf(job)/job plus the ancestor directories - the from-scratch tree - else
@@ -36,10 +43,14 @@ CONSTANTS JobSeq,     \* all job tokens of the universe, in canonical listing or
           PathSpecs,  \* subset of {"auto", "id", "tree", "flat", "const"}
           Orders,     \* subset of {"asc", "desc"}: directory listing order / order of job_ids
           SpecKey,    \* key atom K of the custom specs  "K/{K}/{{auto}}" (tree)  and  "K_{K}/{{auto:_}}" (flat)
+          MaxInside,  \* CONSTRAINT of the graph runs while D5 is open: states with more entries inside job directories are not expanded
           MaxSubsets, \* job_ids selections per state: every subset of ws if there are at most MaxSubsets, else a random sample
-          FixedD1, FixedD2, FixedD3
+          FixedD1, FixedD2, FixedD3, FixedD4, FixedD5
 
-VARIABLES ws, view, last
+VARIABLES ws, view, inside, last
+\* inside = what exists inside the job directories apart from the state point files ({[j |-> job, p |-> relative path]}).
+\* The requirement (JobDirsUntouched): create_linked_view never changes it - a view consists of links TO job directories,
+\* nothing is created THROUGH them. The harness snapshots the workspace after every step and compares with this variable.
 
 Jobs    == {JobSeq[i] : i \in 1..Len(JobSeq)}
 JOBSEG  == <<"JOB">>          \* the leaf name "job"
@@ -142,16 +153,17 @@ RunObs(v, rem) ==
        IF \A p \in lvl : CanRemove(v, p) THEN RunObs(RemoveAll(v, lvl), rem \ lvl)
        ELSE UNION {IF CanRemove(v, p) THEN RunObs(Rm(v, p), rem \ {p}) ELSE {[v |-> v, ok |-> FALSE]} : p \in lvl}
 
-Out(res, v, dev) == [res |-> res, view |-> v, dev |-> dev]
+Out(res, v, ins, dev) == [res |-> res, view |-> v, inside |-> ins, dev |-> dev]
 Orphans(v) == {d \in v.dirs : ~\E l \in v.links : Pfx(d, l.d)}          \* directories that lead to no link
-Update(v, links, dev, fixed3) ==     \* links : set of [p |-> code-level link path, j |-> job]
+Update(v, ins, w, links, dev, fixed3) ==     \* links : set of [p |-> code-level link path, j |-> job]
   LET newp   == {l.p : l \in links}
       jobOf(p) == (CHOOSE l \in links : l.p = p).j
       ex     == Existing(v, fixed3)
       inWay  == IF fixed3 THEN {p \in newp : Norm(p) \in v.dirs} ELSE {}       \* (a fixed implementation clears a directory where a link belongs)
-      obs    == ((Pfxs(ex) \ Pfxs(newp)) \cup inWay) \ {<<CURSEG>>}
+      stale  == IF FixedD5 THEN {e \in ex : e \notin newp /\ \E p \in newp : StrictPfx(Norm(e), Norm(p))} ELSE {}  \* DEVIATION D5
+      obs    == ((Pfxs(ex) \ Pfxs(newp)) \cup inWay \cup stale) \ {<<CURSEG>>}
   IN UNION {
-       IF ~o.ok THEN {Out("OSError", o.v, dev \cup {"D3"})}
+       IF ~o.ok THEN {Out("OSError", o.v, ins, dev \cup {"D3"})}
        ELSE LET v1   == o.v
                 keep == ex \cap newp
                 tgt(p) == IF LinkAt(v1, Norm(p)) THEN TargetAt(v1, Norm(p)) ELSE "DIR"
@@ -159,20 +171,34 @@ Update(v, links, dev, fixed3) ==     \* links : set of [p |-> code-level link pa
                 new  == newp \ keep
                 updDirs == {p \in upd : tgt(p) = "DIR"}
             IN IF updDirs # {}          \* os.unlink on a directory: OSError, the other updates unlinked or not
-               THEN {Out("OSError", RemoveAll(v1, done), dev \cup {"D3"}) : done \in SUBSET (upd \ updDirs)}
+               THEN {Out("OSError", RemoveAll(v1, done), ins, dev \cup {"D3"}) : done \in SUBSET (upd \ updDirs)}
                ELSE LET v2 == RemoveAll(v1, upd)
                         create == new \cup upd
-                        occupied(p) == LinkAt(v2, Norm(p)) \/ Norm(p) \in v2.dirs
+                        \* links of the (remaining) view on the way to p's directory: mkdir -p and symlink go THROUGH the first one
+                        way(p)  == {r \in Pfxs({Fro(Norm(p))}) : LinkAt(v2, r)}
+                        esc     == {p \in create : way(p) # {}}
+                        gate(p) == CHOOSE r \in way(p) : \A x \in way(p) : Len(r) <= Len(x)
+                        host(p) == TargetAt(v2, gate(p))
+                        rest(p) == SubSeq(Norm(p), Len(gate(p)) + 1, Len(Norm(p)))
+                        fails(p) == p \in esc /\ (host(p) \notin w                                  \* dangling link on the way: FileNotFoundError
+                                                  \/ [j |-> host(p), p |-> rest(p)] \in ins)     \* already there from an earlier run: FileExistsError
+                        entries(p) == {[j |-> host(p), p |-> SubSeq(rest(p), 1, i)] : i \in 1..Len(rest(p))}
+                        occupied(p) == p \notin esc /\ (LinkAt(v2, Norm(p)) \/ Norm(p) \in v2.dirs)
+                        Made(P) == [links |-> v2.links \cup {[d |-> Fro(Norm(p)), j |-> jobOf(p)] : p \in P \ esc},
+                                    dirs  |-> v2.dirs \cup Pfxs({Fro(Norm(p)) : p \in P \ esc})]
+                        Ins(P)  == ins \cup UNION {entries(p) : p \in P \cap esc}
+                        d5      == IF esc # {} THEN {"D5"} ELSE {}
                     IN IF \E p \in create : occupied(p)
-                       THEN {Out("OSError", v2, dev \cup {"EEXIST"})}      \* unreachable (invariant NoCreateFailure)
-                       ELSE {Out("ok", [links |-> v2.links \cup {[d |-> Fro(Norm(p)), j |-> jobOf(p)] : p \in create},
-                                        dirs  |-> v2.dirs \cup Pfxs({Fro(Norm(p)) : p \in create})], dev)}
+                       THEN {Out("OSError", v2, ins, dev \cup {"EEXIST"})}      \* unreachable (invariant NoCreateFailure)
+                       ELSE IF \E p \in create : fails(p)                     \* links are made in an order the code does not fix
+                       THEN {Out("OSError", Made(done), Ins(done), dev \cup d5) : done \in SUBSET {p \in create : ~fails(p)}}
+                       ELSE {Out("ok", Made(create), Ins(create), dev \cup d5)}
        : o \in RunObs(v, obs)}
 
-Outcomes(w, v, a) ==
+Outcomes(w, v, ins, a) ==
   LET jobs == InOrder(SelJobs(w, a), a.ord)
       J    == SelJobs(w, a)
-      Rej  == {Out("RuntimeError", v, {})}
+      Rej  == {Out("RuntimeError", v, ins, {})}
   IN IF SepFails(J) THEN Rej
      ELSE IF \E j \in J : ~PathOf(J, a.ps, j).ok THEN Rej
      ELSE LET lp(j) == LinkPath(J, a.ps, j)
@@ -186,18 +212,18 @@ Outcomes(w, v, a) ==
                       dev     == (IF dup THEN {"D2"} ELSE {}) \cup (IF d1 THEN {"D1"} ELSE {})
                       \* _check_directory_structure_validity, in insertion order of the link table
                       first(p) == Min(pos(p))
-                      leafnode == \E x, y \in links0 : first(x.p) > first(y.p) /\ StrictPfx(x.p, y.p)
+                      leafnode == \E x, y \in links0 : StrictPfx(x.p, y.p) /\ (FixedD4 \/ first(x.p) > first(y.p))      \* DEVIATION D4
                   IN IF leafnode THEN Rej
-                     ELSE IF FixedD3 THEN Update(v, links, dev, TRUE)
+                     ELSE IF FixedD3 THEN Update(v, ins, w, links, dev, TRUE)
                      ELSE IF Existing(v, FALSE) = Existing(v, TRUE)
                      THEN \* aftermath of D3: a directory orphaned by an earlier confused/aborted update is not part of the link
                           \* tree and is never collected (such pre-states are unreachable once D3 is fixed)
                           {IF Orphans(v) # {} /\ Orphans(o.view) # {} THEN [o EXCEPT !.dev = @ \cup {"D3"}] ELSE o
-                           : o \in Update(v, links, dev, FALSE)}
+                           : o \in Update(v, ins, w, links, dev, FALSE)}
                      ELSE \* a directory called `job` is in play: whatever differs from the fixed algorithm is D3's doing
-                          LET fixed == Update(v, links, dev, TRUE) IN
+                          LET fixed == Update(v, ins, w, links, dev, TRUE) IN
                           {IF \E i \in fixed : i.res = o.res /\ i.view = o.view THEN o ELSE [o EXCEPT !.dev = @ \cup {"D3"}]
-                           : o \in Update(v, links, dev, FALSE)}
+                           : o \in Update(v, ins, w, links, dev, FALSE)}
 
 ---------------------------------------------------------------------------
 (* actions.  `last` is the observation variable of DESIGN 2.3: every step records what was called and what the model
@@ -210,22 +236,24 @@ Subsets(w) == IF Pow2(Cardinality(w)) <= MaxSubsets THEN SUBSET w ELSE RandomSub
 ViewArgs(w) == {[kind |-> "all", S |-> {}, ps |-> p, ord |-> o] : p \in PathSpecs, o \in Orders}
                \cup {[kind |-> "ids", S |-> S, ps |-> p, ord |-> o] : S \in Subsets(w), p \in PathSpecs, o \in Orders}
 
-Add(j)       == /\ ws' = ws \cup {j} /\ UNCHANGED view
+Add(j)       == /\ ws' = ws \cup {j} /\ UNCHANGED <<view, inside>>
                 /\ last' = [Idle EXCEPT !.op = "add", !.j1 = j]
-Remove1(j)   == /\ ws' = ws \ {j} /\ UNCHANGED view
+Remove1(j)   == /\ ws' = ws \ {j} /\ UNCHANGED view /\ inside' = {x \in inside : x.j # j}                  \* the directory goes with its content
                 /\ last' = [Idle EXCEPT !.op = "remove", !.j1 = j]
 Rekey(j, j2) == /\ ws' = (ws \ {j}) \cup {j2} /\ UNCHANGED view
+                /\ inside' = {IF x.j = j THEN [x EXCEPT !.j = j2] ELSE x : x \in inside}                      \* the directory is renamed
                 /\ last' = [Idle EXCEPT !.op = "rekey", !.j1 = j, !.j2 = j2]
-CreateView(a, o) == /\ view' = o.view /\ UNCHANGED ws
+CreateView(a, o) == /\ view' = o.view /\ inside' = o.inside /\ UNCHANGED ws
                     /\ last' = [Idle EXCEPT !.op = "view", !.a = a, !.res = o.res, !.dev = o.dev]
-Forget == last' = Idle /\ UNCHANGED <<ws, view>>
+Forget == last' = Idle /\ UNCHANGED <<ws, view, inside>>
 
-Init == ws = {} /\ view = EmptyView /\ last = Idle
+Init == ws = {} /\ view = EmptyView /\ inside = {} /\ last = Idle
 Step == \/ \E j \in Jobs \ ws : Add(j)
         \/ \E j \in ws : Remove1(j)
         \/ \E j \in ws : \E j2 \in Jobs \ ws : Rekey(j, j2)
-        \/ \E a \in ViewArgs(ws) : \E o \in Outcomes(ws, view, a) : CreateView(a, o)
+        \/ \E a \in ViewArgs(ws) : \E o \in Outcomes(ws, view, inside, a) : CreateView(a, o)
 Next == IF last.op = "idle" THEN Step ELSE Forget
+InsideBound == Cardinality(inside) <= MaxInside
 Level1 == TLCGet("level") <= 1      \* CONSTRAINT of the run that only exports the target table
 
 \* the declarative target of every selection x path spec, exported for the harness (POSTCONDITION)
@@ -240,7 +268,7 @@ WellFormed(v) == /\ \A l \in v.links : l.d = <<>> \/ l.d \in v.dirs
                  /\ \A d \in v.dirs : Len(d) >= 1 /\ (Len(d) = 1 \/ Fro(d) \in v.dirs)
                  /\ \A l \in v.links : ~\E d \in v.dirs : Pfx(Append(l.d, JOBSEG), d)            \* nothing below a link
                  /\ \A l1, l2 \in v.links : l1.d = l2.d => l1 = l2
-TypeOK == ws \subseteq Jobs /\ WellFormed(view)
+TypeOK == ws \subseteq Jobs /\ WellFormed(view) /\ \A x \in inside : x.j \in ws
 
 Checks(a, o) ==     \* names of the requirements violated by outcome o of CreateView(a) in the current state
   LET w == Want(ws, view, a) IN
@@ -250,17 +278,18 @@ Checks(a, o) ==     \* names of the requirements violated by outcome o of Create
   \cup (IF (o.res # "ok" /\ ~(o.res = "RuntimeError" /\ o.view = view /\ w.res = "RuntimeError"))
            \/ (w.res = "RuntimeError" /\ o.res = "ok") THEN {"RejectFrame"} ELSE {})
   \cup (IF "EEXIST" \in o.dev \/ ~WellFormed(o.view) THEN {"NoCreateFailure"} ELSE {})
+  \cup (IF o.inside # inside THEN {"JobDirsUntouched"} ELSE {})
 \* in the state right after a successful CreateView(a): the same call again changes nothing, and a from-scratch build
 \* (same call on an empty view) gives the same tree
 After == IF last.op = "view" /\ last.res = "ok"
-         THEN (IF \E x \in Outcomes(ws, view, last.a) : ~(x.res = "ok" /\ x.view = view) THEN {"SecondRunNoop"} ELSE {})
-              \cup (IF \E x \in Outcomes(ws, EmptyView, last.a) : ~(x.res = "ok" /\ x.view = view) THEN {"IncrementalEqualsScratch"} ELSE {})
+         THEN (IF \E x \in Outcomes(ws, view, inside, last.a) : ~(x.res = "ok" /\ x.view = view) THEN {"SecondRunNoop"} ELSE {})
+              \cup (IF \E x \in Outcomes(ws, EmptyView, inside, last.a) : ~(x.res = "ok" /\ x.view = view) THEN {"IncrementalEqualsScratch"} ELSE {})
          ELSE {}
-Violated == IF last.op = "idle" THEN UNION {UNION {Checks(a, o) : o \in Outcomes(ws, view, a)} : a \in ViewArgs(ws)} ELSE After
+Violated == IF last.op = "idle" THEN UNION {UNION {Checks(a, o) : o \in Outcomes(ws, view, inside, a)} : a \in ViewArgs(ws)} ELSE After
 Requirements == Violated = {}
 \* ALIAS for error traces: which requirements fail in the last state, and one witness argument tuple for each
-Shown == [ws |-> ws, view |-> view, last |-> last,
+Shown == [ws |-> ws, view |-> view, inside |-> inside, last |-> last,
           violated |-> IF last.op = "idle"
-                       THEN {<<n, CHOOSE a \in ViewArgs(ws) : \E o \in Outcomes(ws, view, a) : n \in Checks(a, o)>> : n \in Violated}
+                       THEN {<<n, CHOOSE a \in ViewArgs(ws) : \E o \in Outcomes(ws, view, inside, a) : n \in Checks(a, o)>> : n \in Violated}
                        ELSE {<<n, last.a>> : n \in Violated}]
 =============================================================================
